@@ -144,12 +144,14 @@ func checkC15(p *Prog, r *Report) {
 	r.rule("C15.O2", "every Put of a buffer loaded from a container is followed on every path to the exit by forgetting it: the slot is set to nil, the container is replaced, deleted from or truncated, or it is a local that is dead afterwards", 6)
 	r.rule("C15.O3", "the decoder's per-call caches (decodeCache, flagCache) alias packet buffers that are recycled before decode returns: every element read is preceded on every path by a reset of the whole cache", 2)
 	r.rule("C15.O4", "callees handed queued buffers (tx) do not retain them; wire data kept by the core (parse_data) is a fresh pool copy, never a slice of the input", 2)
+	r.rule("C15.O7", "eviction comes last: discardShards may recycle the packets of any group and delete its heap from the table — also the group the current packet was just stored in (a stale packet) — so in decode no path from the call of discardShards reaches a use of the group heap looked up before it (or of packets popped from it): they would be read after recycling and recycled a second time", 1)
 	r.rule("C15.O6", "a buffer held in a field that other fields of the same object alias (g = f[n:]) is recycled only together with clearing every such alias in the same block", 0)
 	r.rule("C15.O5", "bufferPool.Put stores into the sync.Pool only under cap(buf) == mtuLimit and stores buf[:cap(buf)]", 1)
 	r.rule("C15.G1", "every unconditional loop of a goroutine body has an exit controlled by a receive from the owner's die channel or by the error of its blocking read", 6)
 	r.rule("C15.G2", "postProcess re-arms its die arm after every processed item on every path and returns on die only when chPostProcessing is empty", 2)
 	r.rule("C15.G3", "the periodic update callback is re-submitted only on the not-closed arm", 1)
 	r.rule("C15.G4", "UDPSession.Close (no listener, owned conn) and Listener.Close (owned conn) close the transport", 2)
+	r.rule("C15.G9", "the first Close always releases what keeps goroutines alive: on every path of UDPSession.Close that is not the 'already closed' return, the dispatch on s.l is reached, its listener arm calls closeSession and its client arm reaches the ownConn test whose true arm calls conn.Close() — an early return before it (whatever error it reports) leaves the receive goroutine blocked in ReadFrom and the socket open for good", 1)
 	r.rule("C15.G8", "a session leaves the listener's table only by being closed: the functions that delete from Listener.sessions are called from UDPSession.Close alone, and a store into the table that can replace an existing session is preceded on every such path by Close of the session found — otherwise the replaced session's goroutine, timer task, queues and blocked readers stay behind for good (one per datagram)", 2)
 	r.rule("C15.G7", "a receive goroutine ends on every failed socket read (no path from err != nil back to the read): closing the transport terminates it whatever error the transport reports (= C13.W9)", 4)
 	r.rule("C15.G6", "a session created by the listener is handed to Accept or closed on every path: nothing else holds a reference that could ever stop its goroutine and its scheduled callback", 1)
@@ -159,6 +161,7 @@ func checkC15(p *Prog, r *Report) {
 	put := p.Method("bufferPool", "Put")
 
 	checkFieldAliasesOnPut(p, r, put)
+	checkEvictionLast(p, r)
 
 	// ---------------------------------------------------------------- O1
 	for _, s := range p.CallsTo(get) {
@@ -248,6 +251,25 @@ func checkC15(p *Prog, r *Report) {
 					return p.forgetsField(n, rootFld, chain)
 				}})
 				if res.Found {
+					// a releasing helper with a single call site: the caller drops the container after the call
+					cur := rootFuncInfo(fi)
+					for k := 0; k < 2 && res.Found; k++ {
+						caller, call, okC := p.singleCaller(cur)
+						if !okC {
+							break
+						}
+						cc := p.CFG(caller)
+						cp, okP := cc.PointOf(call)
+						if !okP {
+							break
+						}
+						res = cc.FindPath(PathQuery{From: Point{cp.B, cp.I + 1}, ExitIsTarget: true, IsBarrier: func(n ast.Node, _ Point) bool {
+							return p.forgetsField(n, rootFld, chain)
+						}})
+						cur = rootFuncInfo(caller)
+					}
+				}
+				if res.Found {
 					r.bad("C15.O2", fi.Name, p.Pos(s.Call), construct, "buffers taken from "+p.FieldOwner(rootFld)+" are recycled but the container still holds them on a path to the exit: they will be used or recycled again", c.DescribePath(res.Path))
 				} else {
 					r.ok("C15.O2", fi.Name, p.Pos(s.Call), construct, "container "+p.FieldOwner(rootFld)+" is replaced / the entry is deleted afterwards on every path")
@@ -326,6 +348,7 @@ func checkC15(p *Prog, r *Report) {
 	}
 	checkCreatedSessionsOwned(p, r)
 	checkSessionsLeaveByClose(p, r, "C15.G8")
+	checkCloseReleases(p, r)
 	checkBoundedSends(p, r)
 }
 
@@ -1730,4 +1753,198 @@ func identVar(p *Prog, e ast.Expr) *types.Var {
 	}
 	v, _ := p.Info.Uses[id].(*types.Var)
 	return v
+}
+
+// checkEvictionLast: C15.O7.
+func checkEvictionLast(p *Prog, r *Report) {
+	dec := p.FuncOf(p.Method("fecDecoder", "decode"))
+	c := p.CFG(dec)
+	fSet := p.Field("fecDecoder", "shardSet")
+	// the locals that hold the group heap: bound from an index of shardSet (v, ok := dec.shardSet[id]) or stored into it
+	held := map[*types.Var]bool{}
+	inspectBody(dec, func(x ast.Node) bool {
+		as, ok := x.(*ast.AssignStmt)
+		if !ok {
+			return true
+		}
+		for i, rhs := range as.Rhs {
+			if ie, isI := ast.Unparen(rhs).(*ast.IndexExpr); isI {
+				if t := p.Term(ie.X); t.Op == "fld" && t.Obj == fSet && i < len(as.Lhs) {
+					if v := identVar(p, as.Lhs[i]); v != nil {
+						held[v] = true
+					}
+				}
+			}
+		}
+		for i, l := range as.Lhs {
+			if ie, isI := ast.Unparen(l).(*ast.IndexExpr); isI && i < len(as.Rhs) {
+				if t := p.Term(ie.X); t.Op == "fld" && t.Obj == fSet {
+					if v := identVar(p, as.Rhs[i]); v != nil {
+						held[v] = true
+					}
+				}
+			}
+		}
+		return true
+	})
+	n := 0
+	for _, s := range p.CallsTo(p.Method("fecDecoder", "discardShards")) {
+		if s.Fn != dec {
+			continue
+		}
+		n++
+		pt, _ := c.PointOf(s.Call)
+		var usedAt ast.Node
+		res := c.FindPath(PathQuery{From: Point{pt.B, pt.I + 1}, IsTarget: func(nd ast.Node, _ Point) bool {
+			hit := false
+			inspectShallow(nd, func(y ast.Node) bool {
+				if id, ok := y.(*ast.Ident); ok {
+					if v, ok := p.Info.Uses[id].(*types.Var); ok && held[v] {
+						hit = true
+					}
+				}
+				return true
+			})
+			if hit {
+				usedAt = nd
+			}
+			return hit
+		}})
+		if res.Found {
+			r.bad("C15.O7", dec.Name, p.Pos(s.Call), "nothing uses the group heap after discardShards()", "the group heap looked up before the eviction is used again at "+p.Pos(usedAt)+": when the current packet belongs to a group that has just fallen out of the window its buffer was recycled (and its heap deleted) by discardShards — it is then read after recycling and put into the pool a second time, so two owners get the same buffer", c.DescribePath(res.Path))
+		} else {
+			r.ok("C15.O7", dec.Name, p.Pos(s.Call), "nothing uses the group heap after discardShards()", "no use of the looked-up heap is reachable after the eviction")
+		}
+	}
+	if n == 0 {
+		r.bad("C15.O7", dec.Name, p.Pos(dec.Node), "eviction", "decode never evicts old groups (C05.B4)", "")
+	}
+}
+
+// checkCloseReleases: C15.G9.
+func checkCloseReleases(p *Prog, r *Report) {
+	fi := p.FuncByName("(*UDPSession).Close")
+	c := p.CFG(fi)
+	self := tVar(p.selfVar(fi))
+	fL, fOwn, fConn := p.Field("UDPSession", "l"), p.Field("UDPSession", "ownConn"), p.Field("UDPSession", "conn")
+	// the local set to true inside the function literal handed to Once.Do ("this call closed the session")
+	var onceV *types.Var
+	for _, g := range p.funcs {
+		if g.Lit == nil || rootFuncInfo(g) != fi {
+			continue
+		}
+		inspectBody(g, func(x ast.Node) bool {
+			if as, ok := x.(*ast.AssignStmt); ok && len(as.Lhs) == 1 && len(as.Rhs) == 1 && p.Term(as.Rhs[0]).Op == "true" {
+				if v := identVar(p, as.Lhs[0]); v != nil {
+					onceV = v
+				}
+			}
+			return true
+		})
+	}
+	// a helper may return it instead: first := s.signalDie()
+	if onceV == nil {
+		inspectBody(fi, func(x ast.Node) bool {
+			if as, ok := x.(*ast.AssignStmt); ok && len(as.Lhs) == 1 && len(as.Rhs) == 1 {
+				if v := identVar(p, as.Lhs[0]); v != nil {
+					if b, isB := v.Type().Underlying().(*types.Basic); isB && b.Kind() == types.Bool {
+						if _, isCall := ast.Unparen(as.Rhs[0]).(*ast.CallExpr); isCall {
+							onceV = v
+						}
+					}
+				}
+			}
+			return true
+		})
+	}
+	var dispatch, ownTest *cfg.Block
+	dispatchTrue := 0
+	for _, b := range c.live {
+		ct := c.CondTerm(b)
+		if ct == nil || len(b.Succs) != 2 {
+			continue
+		}
+		if (ct.Op == "!=" || ct.Op == "==") && len(ct.Args) == 2 {
+			for i := 0; i < 2; i++ {
+				if ct.Args[i].Op == "nil" && ct.Args[1-i].Key() == tFld(self, fL).Key() {
+					dispatch = b
+					if ct.Op == "==" {
+						dispatchTrue = 1
+					}
+				}
+			}
+		}
+		if ct.Key() == tFld(self, fOwn).Key() {
+			ownTest = b
+		}
+	}
+	construct := "first Close releases the socket / unregisters"
+	if dispatch == nil || ownTest == nil {
+		r.bad("C15.G9", fi.Name, p.Pos(fi.Node), construct, "Close has no dispatch on s.l followed by a test of s.ownConn", "")
+		return
+	}
+	alreadyClosed := func(from, to *cfg.Block) bool {
+		// prune the edge on which this call did not close the session (the ErrClosedPipe return)
+		ct := c.CondTerm(from)
+		if ct == nil || onceV == nil || len(from.Succs) != 2 {
+			return true
+		}
+		if ct.Op == "not" && ct.Args[0].Op == "var" && ct.Args[0].Obj == onceV {
+			return to != from.Succs[0]
+		}
+		if ct.Op == "var" && ct.Obj == onceV {
+			return to != from.Succs[1]
+		}
+		return true
+	}
+	isCall := func(nd ast.Node, f *types.Func, recvFld *types.Var, name string) bool {
+		hit := false
+		inspectShallow(nd, func(x ast.Node) bool {
+			call, ok := x.(*ast.CallExpr)
+			if !ok {
+				return true
+			}
+			if f != nil && p.Callee(call) == f {
+				hit = true
+			}
+			if recvFld != nil {
+				if sel, ok := ast.Unparen(call.Fun).(*ast.SelectorExpr); ok && sel.Sel.Name == name {
+					if t := p.Term(sel.X); t.Op == "fld" && t.Obj == recvFld {
+						hit = true
+					}
+				}
+			}
+			return true
+		})
+		return hit
+	}
+	why := ""
+	var wit string
+	if res := c.FindPath(PathQuery{From: Point{c.Entry(), 0}, ExitIsTarget: true, EdgeOK: alreadyClosed, OnBlock: func(b *cfg.Block) (bool, bool) { return false, b == dispatch }}); res.Found {
+		why, wit = "a path of the first Close returns before the dispatch on s.l", c.DescribePath(res.Path)
+	}
+	if why == "" {
+		lst := dispatch.Succs[dispatchTrue]
+		if res := c.FindPath(PathQuery{From: Point{lst, 0}, ExitIsTarget: true, IsBarrier: func(nd ast.Node, _ Point) bool { return isCall(nd, p.Method("Listener", "closeSession"), nil, "") }}); res.Found {
+			why, wit = "the listener arm can return without closeSession", c.DescribePath(res.Path)
+		}
+	}
+	if why == "" {
+		cl := dispatch.Succs[1-dispatchTrue]
+		if cl == ownTest {
+			// the dispatch falls straight into the ownConn test
+		} else if res := c.FindPath(PathQuery{From: Point{cl, 0}, ExitIsTarget: true, OnBlock: func(b *cfg.Block) (bool, bool) { return false, b == ownTest }}); res.Found {
+			why, wit = "the client arm can return without testing ownConn", c.DescribePath(res.Path)
+		}
+	}
+	if why == "" {
+		if res := c.FindPath(PathQuery{From: Point{ownTest.Succs[0], 0}, ExitIsTarget: true, IsBarrier: func(nd ast.Node, _ Point) bool { return isCall(nd, nil, fConn, "Close") }}); res.Found {
+			why, wit = "a session that owns its socket can return without conn.Close()", c.DescribePath(res.Path)
+		}
+	}
+	if why == "" {
+		r.ok("C15.G9", fi.Name, p.Pos(fi.Node), construct, "every path of the first Close reaches closeSession (accepted session) or conn.Close() (owned socket)")
+	} else {
+		r.bad("C15.G9", fi.Name, p.Pos(fi.Node), construct, why+": the receive goroutine of a dialled session stays blocked in ReadFrom on a socket nobody can close any more (a second Close only reports ErrClosedPipe); an accepted session stays in the listener's table", wit)
+	}
 }
